@@ -98,10 +98,14 @@ def run(chk):
             Xa = g.uniform(-3.0, 3.0, size=(24, 2)) + g.uniform(-1.0, 1.0, size=(3, 2))[ya]
             kw0 = dict(n_gaussians=2, max_fitting_steps=2, convergence_threshold=None, update_variances=True)
             for kind in ("isv", "jfa"):
-                def fa_fit(sd_, kwargs):
+                def fa_fit(sd_, kwargs, disturb=None):
                     cls = em.ISVMachine if kind == "isv" else em.JFAMachine
                     extra = {} if kind == "isv" else {"r_V": 1}
                     mm = cls(r_U=1, em_iterations=1, ubm_kwargs=kwargs, random_state=sd_, **extra)
+                    if disturb is not None:
+                        # the caller uses NumPy's global generator between constructing the machine and training it
+                        np.random.seed(disturb)
+                        np.random.rand(3)
                     mm.fit_using_array(Xa, ya)
                     return np.concatenate([np.ravel(mm.U), np.ravel(mm.D), np.ravel(mm.ubm.means)])
                 shared = dict(kw0)
@@ -113,11 +117,38 @@ def run(chk):
                     chk.fail("%s.fit_using_array with ubm_kwargs raises %r" % (kind.upper(), e), dict(ctx, trainer=kind))
                     continue
                 chk.count(1, key=("shared-ubm_kwargs", kind))
+                try:
+                    disturbed = fa_fit(seed % 1000 + 7, dict(kw0), disturb=r.randint(0, 2 ** 31))
+                    chk.count(1, key=("global-generator-used-between-construction-and-fit", kind))
+                    if not same(disturbed, alone):
+                        chk.fail("%s (integer random_state, UBM trained inside fit_using_array) gives another model when NumPy's global generator is used between construction and training"
+                                 % kind.upper(), dict(ctx, trainer=kind))
+                except Exception as e:
+                    chk.fail("%s.fit_using_array with ubm_kwargs raises %r" % (kind.upper(), e), dict(ctx, trainer=kind))
                 if not same(after_other, alone):
                     chk.fail("%s trained from arrays with a ubm_kwargs dict that had configured another machine (another seed) before differs from the same training alone"
                              % kind.upper(), dict(ctx, trainer=kind))
                 if shared != kw0:
                     chk.fail("%s.fit_using_array modifies the caller's ubm_kwargs dict: %r" % (kind.upper(), shared), dict(ctx, trainer=kind))
+        # ---- a machine trained, then trained again after the caller reordered the SAME list / label array in place: the second training is a function
+        #      of the data it is given (it equals that of a twin of the machine given copies of the reordered data), not of the containers' identity
+        for kind in ("isv", "jfa"):
+            mm = fa.make_machine(kind, copy.deepcopy(ubm), 2, 2, em_iterations=1, random_state=int(seed))
+            Xl, yl = list(stats), np.array(y)
+            mm.fit(Xl, yl)
+            twin = copy.deepcopy(mm)
+            pm = g.permutation(len(Xl))
+            while np.array_equal(yl[pm], yl):
+                pm = g.permutation(len(Xl))
+            Xl[:] = [Xl[q] for q in pm]
+            yl[:] = yl[pm]
+            mm.fit(Xl, yl)
+            twin.fit(list(Xl), np.array(yl))
+            chk.count(1, key=("second fit after in-place reorder", kind))
+            pair = lambda m_: np.concatenate([np.ravel(m_.U), np.ravel(m_.D)] + ([np.ravel(m_.V)] if kind == "jfa" else []))
+            if not close(pair(mm), pair(twin)):
+                chk.fail("%s trained a second time after the caller reordered its statistics list and label array in place differs from a twin machine given copies of the same reordered data "
+                         "(something is remembered per container object)" % kind.upper(), dict(ctx, trainer=kind, labels_first=[int(q) for q in y], labels_second=[int(q) for q in yl]))
         # ---- the integer seed given as a NumPy integer scalar (an element of an array, a value read from a file) is the same seed
         for kind in ("isv", "jfa"):
             def fit_seed(sd_):
